@@ -1,10 +1,25 @@
 import JF.Driver.Time
 import JF.Driver.Num
+import JF.Driver.Pbc
+import JF.Driver.Cells
+import JF.Driver.Heap
+import JF.Driver.Lift
+import JF.Driver.Walker
+import JF.Driver.Store
+import JF.Driver.Occ
+import JF.Driver.Factor
+import JF.Driver.Act
+import JF.Driver.Pot
+import JF.Driver.Thin
+import JF.Driver.Sys
+import JF.Driver.MP
 open JF.Driver
 
 def components : List (String × Comp) := [
-  ("time", timeComp),
-  ("num", numComp)
+  ("time", timeComp), ("num", numComp), ("pbc", pbcComp), ("cells", cellsComp), ("heap", heapComp),
+  ("lift", liftComp), ("walker", walkerComp), ("store", storeComp), ("occ", occComp),
+  ("factor", factorComp), ("act", actComp), ("pot", potComp), ("thin", thinComp), ("sys", sysComp),
+  ("mp", mpComp)
 ]
 
 partial def loop (h : IO.FS.Stream) (out : IO.FS.Stream) (c : Comp) (s : c.σ) : IO Unit := do
